@@ -55,8 +55,73 @@ def all_cases(tier):
                 yield (sv, pl, pat)
 
 
+    # OV: several overload-only functions in the stubs (module level and inside a class), each with or without a runtime function:
+    # every runtime function must receive its overloads whatever stands above or below it in the stubs
+    for n in (1, 2, 3):
+        for mask in range(2 ** n):
+            for level in ("module", "class", "both"):
+                for pl in PLACEMENTS:
+                    yield (("OV", n, mask, level), pl, PATTERNS["quick"][0])
+
+
 def shards(tier):
     return list(range(NSHARDS))
+
+
+def _ov_sources(n, mask, level):
+    names = ["p", "q", "r"][:n]
+    rt, st = [], ["from typing import overload"]
+    if level in ("module", "both"):
+        for i, nm in enumerate(names):
+            st.append(f"@overload\ndef {nm}(a: int) -> int: ...\n@overload\ndef {nm}(a: str) -> str: ...")
+            if mask >> i & 1:
+                rt.append(f"def {nm}(a):\n    return a")
+    if level in ("class", "both"):
+        st.append("class K:")
+        rt.append("class K:\n    kv = 1")
+        for i, nm in enumerate(names):
+            st.append(f"    @overload\n    def {nm}(self, a: int) -> int: ...\n    @overload\n    def {nm}(self, a: str) -> str: ...")
+            if mask >> i & 1:
+                rt.append(f"    def {nm}(self, a):\n        return a")
+    return "\n".join(rt) + "\n", "\n".join(st) + "\n"
+
+
+def _run_ov(griffe, acc, case):
+    (_tag, n, mask, level), pl, _pat = case
+    rt, st = _ov_sources(n, mask, level)
+    if pl == "sibling-module":
+        files, top, modpath, opts = {"mod.py": rt, "mod.pyi": st}, "mod", "mod", {}
+    elif pl == "in-package":
+        files, top, modpath, opts = {"pkg/__init__.py": "", "pkg/__init__.pyi": "", "pkg/mod.py": rt, "pkg/mod.pyi": st}, "pkg", "pkg.mod", {}
+    else:
+        files, top, modpath, opts = {"pkg/__init__.py": "", "pkg/mod.py": rt, "pkg-stubs/__init__.pyi": "", "pkg-stubs/mod.pyi": st}, "pkg", "pkg.mod", {"find_stubs_package": True}
+    cd = {"case": [["OV", n, mask, level], pl, list(_pat)], "files": files}
+    names = ["p", "q", "r"][:n]
+    seen = {}
+    with sandbox.scratch_dir("c19o") as d:
+        sandbox.write_tree(d, files)
+        for order in ORDERS:
+            try:
+                with listing.Listing(listing.ascending if order == "asc" else listing.descending):
+                    loader = griffe.GriffeLoader(search_paths=[d], allow_inspection=False)
+                    loader.load(top, **opts)
+                mod = loader.modules_collection[modpath]
+            except Exception as e:  # noqa: BLE001
+                acc.violation(f"raise/{type(e).__name__}/overload-sets/{pl}", f"load with stubs raised {e!r}", cd, None, size=n)
+                return
+            got = {}
+            scopes = ([("", mod)] if level in ("module", "both") else []) + ([("K.", mod.members["K"])] if level in ("class", "both") and "K" in mod.members else [])
+            for prefix, scope in scopes:
+                for i, nm in enumerate(names):
+                    m = scope.members.get(nm)
+                    got[prefix + nm] = None if m is None else ("not-function" if not m.is_function else None if not m.overloads else [str(o.returns) for o in m.overloads])
+                    want = ["int", "str"] if mask >> i & 1 else None
+                    if got[prefix + nm] != want:
+                        above = "stub-only-above" if any(not (mask >> j & 1) for j in range(i)) else "first-or-all-present-above"
+                        acc.violation(f"merge/overload-sets/{'class' if prefix else 'module'}/{above}", f"{modpath}.{prefix}{nm}: overloads {got[prefix + nm]!r}, expected {want!r} (runtime functions present: {[x for j, x in enumerate(names) if mask >> j & 1]})", cd, {"placement": pl, "order": order}, size=n)
+            seen[order] = got
+    acc.case({"case": cd["case"]}, outcome=pl + ":overload-sets", nontrivial=mask != 0)
+    acc.observe(seen)
 
 
 def sources(sv, pat):
@@ -225,6 +290,8 @@ def _diff(got, exp, path=""):
 
 def run_case(griffe, acc, case):
     sv, pl, pat = case
+    if sv[0] == "OV":
+        return _run_ov(griffe, acc, case)
     files, top, modpath, opts = layout(case)
     results = {}
     cd = {"case": [list(sv), pl, list(pat)], "files": files}
@@ -275,7 +342,7 @@ def run_shard(shard, tier):
         except Exception as e:  # noqa: BLE001
             import traceback
 
-            acc.violation(f"harness-error/{type(e).__name__}", repr(e), {"case": [list(case[0]), case[1], list(case[2])]}, {"tb": traceback.format_exc()[-900:]})
+            acc.violation(f"harness-error/{type(e).__name__}@{traceback.extract_tb(e.__traceback__)[-1].name}", repr(e), {"case": [list(case[0]), case[1], list(case[2])]}, {"tb": traceback.format_exc()[-900:]})
     return acc.result()
 
 
